@@ -19,8 +19,10 @@ from ..runner import new_part, key_hash
 RULE = ("every import form over the vendored package tree (import a / a.b / a.b.c with and without "
         "alias, several modules in one statement, from-import of attributes, of not-yet-imported "
         "submodules, of several names with aliases, relative imports of level 1 and 2 with and "
-        "without a module name, repeated and interleaved statements) x placement {module, function, "
-        "class body, function with global declaration, function with a capturing nested function} "
+        "without a module name, repeated and interleaved statements, future statements) x placement "
+        "{module, function, class body, function with global declaration, function with a capturing "
+        "nested function or class, function in function, method, class in function, method of a "
+        "nested class, if/else branch, for/while body, loop in a function} "
         "x 8 configurations; sys.modules is reset before every run. Non-trivial: dotted, relative, "
         "multi-name or submodule form; distinct by (statement, placement).")
 
@@ -60,6 +62,10 @@ ABS = [
     ("import vpkg.leaf as vpkg\nimport vpkg.other\nfrom vpkg import leaf as vpkg", ["vpkg"], "alias-then-plain-then-from"),
     ("from vtop import T\nT = T + '!'\nfrom vtop import T as T2, T", ["T", "T2"], "from-rebound"),
     ("from vpkg import other, leaf, other as o2, X, X as X2", ["other", "leaf", "o2", "X", "X2"], "from-duplicates-in-order"),
+    # a future statement is an import too: it binds the feature object (only legal at the top of a module)
+    ("from __future__ import annotations", ["annotations"], "future"),
+    ("from __future__ import annotations as ann, division", ["ann", "division"], "future-alias-multi"),
+    ("from __future__ import generator_stop\nimport vpkg.leaf as lf", ["generator_stop", "lf"], "future-then-import"),
 ]
 # relative forms: the program is vpkg.sub.prog (package vpkg.sub)
 REL = [
@@ -77,7 +83,10 @@ REL = [
     ("from .. import sub", ["sub"], "rel2-package"),
     ("from . import deep\nfrom .. import top_value\nimport vpkg.other", ["deep", "top_value", "vpkg"], "rel-mixed"),
 ]
-PLACEMENTS = ("module", "function", "class", "global_decl", "captured", "captured_by_class")
+PLACEMENTS = ("module", "function", "class", "global_decl", "captured", "captured_by_class",
+              # the ONLY import of the program sits two or three scopes deep, or in a nested block
+              "nested_function", "method", "class_in_function", "method_of_nested_class",
+              "if_branch", "else_branch", "for_body", "while_body", "loop_in_function")
 
 
 def program(stmt, names, where):
@@ -100,6 +109,25 @@ def program(stmt, names, where):
         return ("def FF():\n" + "\n".join("    " + l for l in lines)
                 + "\n    class KK:\n        got = (%s,)\n        viacomp = [(%s,) for _q in range(1)]\n    L('cls', *KK.got)\n    L('comp', *KK.viacomp[0])\n    %s\nFF()\n"
                 % (", ".join(names), ", ".join(names), show))
+    ind = lambda n, ls: "\n".join(" " * (4 * n) + l for l in ls)
+    if where == "nested_function":
+        return "def FF():\n    def GG():\n%s\n    GG()\nFF()\n" % ind(2, lines + [show])
+    if where == "method":
+        return "class KK:\n    def mm(self):\n%s\nKK().mm()\n" % ind(2, lines + [show])
+    if where == "class_in_function":
+        return "def FF():\n    class KK:\n%s\n    L('cls', %s)\nFF()\n" % (ind(2, lines + [show]), ", ".join("KK." + n for n in names))
+    if where == "method_of_nested_class":
+        return "def FF():\n    class KK:\n        def mm(self):\n%s\n    KK().mm()\nFF()\n" % ind(3, lines + [show])
+    if where == "if_branch":
+        return "if P(1, 1):\n%s\nelse:\n    P(2)\n%s\n" % (ind(1, lines), show)
+    if where == "else_branch":
+        return "if not P(1, 1):\n    P(2)\nelse:\n%s\n%s\n" % (ind(1, lines), show)
+    if where == "for_body":
+        return "for q in IT(1):\n%s\n    P(2)\n%s\n" % (ind(1, lines), show)
+    if where == "while_body":
+        return "n = [0]\nwhile n[0] < 2:\n    n[0] += 1\n%s\nelse:\n    P(2)\n%s\n" % (ind(1, lines), show)
+    if where == "loop_in_function":
+        return "def FF():\n    for q in IT(1):\n%s\n        if P(2, 1):\n            break\n    %s\nFF()\n" % (ind(2, lines), show)
     raise ValueError(where)
 
 
@@ -141,6 +169,11 @@ def diffs_of(o, c):
 
 def check_case(part, stmt, names, tag, where, relative, cfgs):
     src = program(stmt, names, where)
+    try:
+        compile(src, "<import>", "exec")
+    except SyntaxError:
+        part["discarded"]["form-not-legal-in-placement"] += 1    # a future statement below the top
+        return
     o = run_one(src, "exec", relative)
     if not o["ok"]:
         raise env.HarnessError("import program raises in the original: %s %s\n%s" % (o["err"], o["errmsg"], src))
